@@ -74,3 +74,108 @@ impl<T, S> HashSet<T, S> {
         self.map.verif_cursor_for_each(|k, _| f(k));
     }
 }
+
+// ---------------------------------------------------------------------------------------------
+// Span tracing of the raw table's critical sections.
+//
+// With the environment variable `GRIDDLE_VERIF_TRACE=<file>` set, every traced `RawTable` method
+// appends one line `{"a": name, "n": arg, "r": R, "pre": [..], "pre2": [..], "post": [..]}` to that
+// file when it returns normally: the structural counters of the table on entry and on exit. The
+// records are self-contained (no ordering or table identity is needed to judge one), so they can
+// be collected from the crate's own, multi-threaded test suite and checked against the
+// specification afterwards. Without the variable nothing is read or written.
+// ---------------------------------------------------------------------------------------------
+extern crate std;
+
+use core::sync::atomic::{AtomicU8, Ordering};
+use std::io::Write;
+use std::sync::Mutex;
+
+static ENABLED: AtomicU8 = AtomicU8::new(0); // 0 = not looked up yet, 1 = off, 2 = on
+static SINK: Mutex<Option<std::fs::File>> = Mutex::new(None);
+
+fn enabled() -> bool {
+    match ENABLED.load(Ordering::Relaxed) {
+        2 => true,
+        1 => false,
+        _ => {
+            let on = match std::env::var_os("GRIDDLE_VERIF_TRACE") {
+                Some(path) => {
+                    let f = std::fs::OpenOptions::new().create(true).append(true).open(path);
+                    match f {
+                        Ok(f) => {
+                            *SINK.lock().unwrap_or_else(|e| e.into_inner()) = Some(f);
+                            true
+                        }
+                        Err(_) => false,
+                    }
+                }
+                None => false,
+            };
+            ENABLED.store(if on { 2 } else { 1 }, Ordering::Relaxed);
+            on
+        }
+    }
+}
+
+/// `[main buckets, main len, main capacity, split, old buckets, old len, cursor count]`
+pub(crate) type Counters = [usize; 7];
+
+pub(crate) fn write_record(name: &str, arg: usize, r: usize, pre: Counters, pre2: Option<Counters>, post: Counters) {
+    let line = std::format!(
+        "{{\"a\":\"{}\",\"n\":{},\"r\":{},\"pre\":{:?},\"pre2\":{:?},\"post\":{:?}}}\n",
+        name,
+        arg,
+        r,
+        pre,
+        pre2.map_or(std::vec::Vec::new(), |c| c.to_vec()),
+        post
+    );
+    if let Some(f) = SINK.lock().unwrap_or_else(|e| e.into_inner()).as_mut() {
+        let _ = f.write_all(line.as_bytes());
+    }
+}
+
+/// Entered at the top of a traced method; writes the record when the method returns.
+pub(crate) struct Span {
+    name: &'static str,
+    arg: usize,
+    r: usize,
+    pre: Counters,
+    table: *const (),
+    probe: unsafe fn(*const ()) -> Counters,
+    on: bool,
+}
+
+impl Span {
+    pub(crate) fn enter<T>(name: &'static str, arg: usize, table: &crate::raw::RawTable<T>) -> Span {
+        unsafe fn probe<T>(p: *const ()) -> Counters {
+            (*(p as *const crate::raw::RawTable<T>)).verif_counters()
+        }
+        let on = enabled();
+        Span {
+            name,
+            arg,
+            r: crate::raw::RawTable::<T>::verif_r(),
+            pre: if on { table.verif_counters() } else { [0; 7] },
+            table: table as *const crate::raw::RawTable<T> as *const (),
+            probe: probe::<T>,
+            on,
+        }
+    }
+}
+
+impl Drop for Span {
+    fn drop(&mut self) {
+        // (not while unwinding: an interrupted call is not a completed action)
+        if self.on && !std::thread::panicking() {
+            // the traced method is about to return: the table it was called on is still there
+            let post = unsafe { (self.probe)(self.table) };
+            write_record(self.name, self.arg, self.r, self.pre, None, post);
+        }
+    }
+}
+
+pub(crate) fn tracing() -> bool {
+    enabled()
+}
